@@ -341,4 +341,4 @@ var profStage = register(&Profile{
 	Classify: classifyStage,
 })
 
-var stageWeights = Weights{"write-new": 20, "modify": 12, "remove-file": 10, "rmdir": 4, "recreate": 4, "add": 30, "add-invalid": 3, "rm": 12, "rm-invalid": 3, "file2dir": 4, "revert": 6, "recreate-unstaged": 3, "commit": 6, "reset": 4, "touch": 2, "rewrite-same": 2, "write-temp-sibling": 3}
+var stageWeights = Weights{"dir-at-unstaged-file": 3, "file-at-unstaged-dir": 3, "dir2file": 3, "write-new": 20, "modify": 12, "remove-file": 10, "rmdir": 4, "recreate": 4, "add": 30, "add-invalid": 3, "rm": 12, "rm-invalid": 3, "file2dir": 4, "revert": 6, "recreate-unstaged": 3, "commit": 6, "reset": 4, "touch": 2, "rewrite-same": 2, "write-temp-sibling": 3}
